@@ -7,6 +7,7 @@ package main
 
 import (
 	"fmt"
+	"go/token"
 	"go/types"
 	"sort"
 	"strings"
@@ -142,6 +143,7 @@ func reflectAliases(c *Ctx, fn *ssa.Function, param ssa.Value) (map[ssa.Value]bo
 }
 
 func checkC13(c *Ctx, r *Report) {
+	defer representationTestRule(c, r)
 	r.Assumption("maps and pointed-to objects shared by the struct may be modified by a failing Unpack (excluded by the property); top-level slice/array targets are written in place (the statement is about structs)")
 	r.Assumption("which fields are overwritten for which subset of settings is value-level and not decided")
 
@@ -268,7 +270,7 @@ func checkC13(c *Ctx, r *Report) {
 			}
 			n++
 			exported, notIgnored := false, false
-			for _, cd := range DomConds(ci.(ssa.Instruction).Block()) {
+			for _, cd := range ExpandConds(DomConds(ci.(ssa.Instruction).Block())) {
 				v, truth := cd.V, cd.Truth
 				if call, ok := v.(*ssa.Call); ok && truth {
 					if g := call.Call.StaticCallee(); g != nil && g.String() == "unicode.IsUpper" {
@@ -302,9 +304,28 @@ func checkC13(c *Ctx, r *Report) {
 				for _, s := range Sources(ret.Results[0]) {
 					if l, ok := s.(*ssa.UnOp); ok {
 						if a, ok := l.X.(*ssa.Alloc); ok {
+							// members written — but only writes that can happen before this load count (a local that
+							// stays the zero value until the field is accepted)
 							for _, ref := range *a.Referrers() {
-								if _, isFA := ref.(*ssa.FieldAddr); isFA {
-									zero = false
+								fa, isFA := ref.(*ssa.FieldAddr)
+								if !isFA {
+									continue
+								}
+								for _, r2 := range *fa.Referrers() {
+									st, isSt := r2.(*ssa.Store)
+									if !isSt {
+										if _, isLoad := r2.(*ssa.UnOp); !isLoad {
+											zero = false // address of a member handed on
+										}
+										continue
+									}
+									if st.Block() == l.Block() {
+										if InstrDominates(st, l) {
+											zero = false
+										}
+									} else if reachableFromEdge(nil, st.Block(), l.Block(), nil) {
+										zero = false
+									}
 								}
 							}
 						}
@@ -419,4 +440,72 @@ func checkC13(c *Ctx, r *Report) {
 	_ = types.Identical
 	r.Rule("R13e", "nothing is carried from one Unpack to the next: no package-level variable is handed by address to library code except the atomic sequence counter (a memo of tag parsing keyed without the tag name lets an earlier call decide which fields a later call writes)", 1)
 	globalStateRuleAs(c, r, "R13e")
+}
+
+// representationTestRule (R13f): while unpacking, "is this setting an object / a list" is a question about what the
+// setting evaluates to, not about how it is stored: a ${reference} to a section is a *cfgDynamic, not a cfgSub. A
+// decision between merging into the target and replacing it that is taken on the representation (isSub, an
+// assertion to cfgSub) treats the same settings differently depending on whether they were written out or
+// referred to. On the unpack path such a test is made on the result of an evaluation (getValue), or next to the
+// reference case on the same value.
+func representationTestRule(c *Ctx, r *Report) {
+	r.Rule("R13f", "on the unpack path a setting is tested for being a stored sub-config (isSub, assertion to cfgSub) only after evaluation, or together with the *cfgDynamic case on the same value", 2)
+	isSubF := c.TryFunc("", "isSub")
+	subT := c.Named("", "cfgSub")
+	dynT := types.NewPointer(c.Named("", "cfgDynamic"))
+	for _, fn := range c.SrcFuncs() {
+		if fn.Pkg != c.SSA[""] {
+			continue
+		}
+		file := c.Pos(fn.Pos())
+		if !strings.HasPrefix(file, "reify.go:") && !strings.HasPrefix(file, "unpack.go:") {
+			continue
+		}
+		name := c.FnName(fn)
+		// operands asserted to *cfgDynamic in this function
+		var dynOperands []ssa.Value
+		Instrs(fn, false, func(in ssa.Instruction) {
+			if ta, ok := in.(*ssa.TypeAssert); ok && types.Identical(ta.AssertedType, dynT) {
+				dynOperands = append(dynOperands, ta.X)
+			}
+		})
+		check := func(x ssa.Value, pos token.Pos, what string) {
+			evaluated := false
+			for _, s := range append(Sources(x), x) {
+				if ex, ok := s.(*ssa.Extract); ok {
+					if call, ok := ex.Tuple.(*ssa.Call); ok {
+						n := ""
+						if call.Call.IsInvoke() {
+							n = call.Call.Method.Name()
+						} else if g := call.Call.StaticCallee(); g != nil {
+							n = g.Name()
+						}
+						if n == "getValue" || n == "cachedValue" {
+							evaluated = true
+						}
+					}
+				}
+			}
+			paired := false
+			for _, o := range dynOperands {
+				if o == x || SameValue(o, x) || sameSrc(o, x) {
+					paired = true
+				}
+			}
+			r.Check(evaluated || paired, "R13f", name, what, c.Pos(pos), "on an evaluated value, or next to the reference case",
+				"the unpack path decides on the stored representation of a setting ("+what+") without the reference case: a setting that refers to a section or a list (${path}) is a *cfgDynamic and takes the branch meant for plain values — the target is replaced where it would be merged, the fields the configuration does not mention are lost")
+		}
+		Instrs(fn, false, func(in ssa.Instruction) {
+			switch x := in.(type) {
+			case *ssa.Call:
+				if isSubF != nil && IsCallTo(x, isSubF) {
+					check(x.Call.Args[0], x.Pos(), "isSub")
+				}
+			case *ssa.TypeAssert:
+				if types.Identical(x.AssertedType, subT) && isNamed(x.X.Type(), modPath, "value") {
+					check(x.X, x.Pos(), "assertion to cfgSub")
+				}
+			}
+		})
+	}
 }
